@@ -43,7 +43,11 @@ def _replace_units(original_units, values_by_name):
     """
     q = 1
     for arg_name, exponent in original_units.items():
-        q = q * values_by_name[arg_name] ** exponent
+        # Only the units matter: do not compute with the magnitudes
+        # (a zero raised to a negative exponent would fail).
+        units = getattr(values_by_name[arg_name], "units", None)
+        if units is not None:
+            q = q * units**exponent
 
     return getattr(q, "_units", UnitsContainer({}))
 
